@@ -216,8 +216,10 @@ def sweepable(cls):
         elif isinstance(v.default, tuple) and v.default and all(isinstance(x, (int, float)) for x in v.default):
             d = v.default
             nz = [i for i, x in enumerate(d) if x != 0.0]
-            for i in sorted({0, nz[-1] if nz else len(d) - 1}):
-                out.append((f"{k}[{i}]", (lambda name, d, i: (lambda x: {name: tuple(x if j == i else float(y) for j, y in enumerate(d))}))(k, d, i), float(d[i])))
+            # ... and every vanishing odd-order entry: there the eigenvalues are real at the evaluation point while the perturbation is imaginary
+            oddzero = {i for i, x in enumerate(d) if i % 2 == 1 and x == 0.0} if "linear" in k else set()
+            for i in sorted({0, nz[-1] if nz else len(d) - 1} | oddzero):
+                out.append((f"{k}[{i}]" + ("@oddzero" if i in oddzero else ""), (lambda name, d, i: (lambda x: {name: tuple(x if j == i else float(y) for j, y in enumerate(d))}))(k, d, i), float(d[i])))
     return out
 
 
@@ -300,6 +302,7 @@ def check_semilinear(run_, tab, tables, ex, jnp, jax, rng, tier):
                 r0 = names.index(name) % (len(targets) - 1)
                 rest = targets[1:]
                 targets = [targets[0]] + [rest[(r0 + i) % len(rest)] for i in range(2)]
+                targets += [t for t in rest if t[0].endswith("@oddzero") and t not in targets][:1]
             for nm, mk, x0 in targets:
                 def f_p(x, nm=nm, mk=mk):
                     if nm == "dt":
